@@ -278,6 +278,7 @@ impl RunCfg {
                 cfg.rogue = true;
                 cfg.n_clients = ch.range(3, 6) as usize;
                 cfg.good_clients = 2;
+                cfg.shared = ch.coin(1, 2);
                 cfg.shadow_events = ch.coin(1, 6);
                 cfg.stale_events = ch.coin(2, 3);
                 cfg.max_connections = cfg.n_clients + 2;
@@ -2134,6 +2135,16 @@ impl World {
                 }
             }
         }
+        if self.cfg.stale_events && !self.quiescing && can_send {
+            // the network side of a link its client abandoned (DISCONNECT sent,
+            // or superseded by a takeover) ends at some arbitrary later moment:
+            // unless the link has noticed the router's drop it sends Disconnect
+            for l in self.abandoned.iter() {
+                if self.links[*l].state == LState::Up {
+                    v.push((Act::Drop(*l), 3));
+                }
+            }
+        }
         if self.cfg.rogue && !self.quiescing && can_send {
             v.push((Act::Tick, 1));
             for (l, link) in self.links.iter().enumerate() {
@@ -2278,8 +2289,23 @@ impl World {
                 let mut filters = Vec::new();
                 for _ in 0..n {
                     let f = self.cfg.filters[self.ch.pick(self.cfg.filters.len() as u32) as usize].to_string();
-                    let already = self.clients[c].subscribed.iter().any(|x| *x == f || x.ends_with(&format!("/{f}")) && x.starts_with("$share/"))
-                        || filters.iter().any(|(x, _): &(String, u8)| *x == f || x.ends_with(&format!("/{f}")) && x.starts_with("$share/"));
+                    let f = if self.cfg.members > 0 {
+                        // C17: members use shared subscriptions only, one group per filter
+                        if c < self.cfg.members {
+                            let gi = self.cfg.filters.iter().position(|x| *x == f).unwrap_or(0);
+                            format!("$share/g{gi}/{f}")
+                        } else {
+                            f
+                        }
+                    } else if self.cfg.shared && (self.prop != P::C14 || self.clients[c].rogue) && self.ch.coin(1, 2) {
+                        // (in C14 runs only the other clients use shared filters, so
+                        // that the well-behaved pair's stream stays attributable)
+                        format!("$share/g{}/{f}", self.ch.pick(2))
+                    } else {
+                        f
+                    };
+                    let already = self.clients[c].subscribed.contains(&f)
+                        || filters.iter().any(|(x, _): &(String, u8)| *x == f);
                     if already && !self.cfg.resub {
                         continue;
                     }
@@ -2299,19 +2325,6 @@ impl World {
                             }
                         }
                     }
-                    let f = if self.cfg.members > 0 {
-                        // C17: members use shared subscriptions only, one group per filter
-                        if c < self.cfg.members {
-                            let gi = self.cfg.filters.iter().position(|x| *x == f).unwrap_or(0);
-                            format!("$share/g{gi}/{f}")
-                        } else {
-                            f
-                        }
-                    } else if self.cfg.shared && self.ch.coin(1, 2) {
-                        format!("$share/g{}/{f}", self.ch.pick(2))
-                    } else {
-                        f
-                    };
                     filters.push((f, q));
                 }
                 if filters.is_empty() {
